@@ -74,6 +74,8 @@ EXPORTED ROUTINES
 
 ------------------------------------------------------------------------- */
 
+#include <errno.h>
+
 #include "hdf_priv.h"
 #include "hfile_priv.h"
 
@@ -259,6 +261,10 @@ HXcreate(int32 file_id, uint16 tag, uint16 ref, const char *extern_file_name, in
        create it */
     file_external = (hdf_file_t)HI_OPEN(fname, DFACC_WRITE);
     if (OPENERR(file_external)) {
+        /* Create (truncate) the file only when it is not there: any other open
+           failure must not destroy the data other elements keep in it */
+        if (errno != ENOENT)
+            HGOTO_ERROR(DFE_BADOPEN, FAIL);
         file_external = (hdf_file_t)HI_CREATE(fname);
         if (OPENERR(file_external))
             HGOTO_ERROR(DFE_BADOPEN, FAIL);
